@@ -186,7 +186,8 @@ impl Fmla {
 
 #[derive(Clone, Debug, PartialEq)]
 pub struct BCell {
-    /// iStyleRef (24 bits): index into `XlsbBook::xfs`
+    /// bits 0..24: iStyleRef, index into `XlsbBook::xfs`; bits 24..32: the byte that follows it in the Cell structure
+    /// (fPhShow = bit 0, the other bits reserved) — no reader of cell values may look at it (C10, seeded C10-m16)
     pub style: u32,
     pub val: BVal,
     /// `Some` → the BrtFmla* record of the value's kind is written (ignored for Blank/Rk/Isst)
@@ -217,8 +218,7 @@ impl BCell {
     /// payload of the cell record at column `col`
     pub fn payload(&self, col: u32) -> Vec<u8> {
         let mut v = col.to_le_bytes().to_vec();
-        v.extend_from_slice(&self.style.to_le_bytes()[..3]);
-        v.push(0);
+        v.extend_from_slice(&self.style.to_le_bytes()); // iStyleRef (3 bytes), then the flags byte
         match &self.val {
             BVal::Blank => {}
             BVal::Rk(w) => v.extend_from_slice(&w.to_le_bytes()),
@@ -430,6 +430,10 @@ pub struct XlsbBook {
     /// extra records `(id, payload)` written in styles.bin between BrtEndFmts and BrtBeginCellXFs (where Excel puts
     /// fonts, fills, borders and the cell style XFs), framed by the book's framing
     pub styles_pre: Vec<(u16, Vec<u8>)>,
+    /// `Some(seed)`: other records are written INSIDE the BrtBeginFmts … BrtEndFmts list — a BrtACBegin / BrtACEnd pair
+    /// around a BrtFmt (alternate content), future records, unknown ids — in front of some of the BrtFmt records. The
+    /// count of BrtBeginFmts is the number of BrtFmt records; the others do not take a slot. (C10, seeded C10-m14)
+    pub fmts_interleave: Option<u64>,
     /// complete bytes of parts by zip name (e.g. "xl/workbook.bin"): replaces the generated part of that name, or
     /// adds the part (malformed-part tests)
     pub raw_parts: Vec<(String, Vec<u8>)>,
@@ -463,6 +467,7 @@ impl XlsbBook {
             workbook_pre: vec![],
             rel_ids: None,
             styles_pre: vec![],
+            fmts_interleave: None,
             raw_parts: vec![],
             sst_extras: None,
         }
@@ -557,10 +562,33 @@ impl XlsbBook {
         let mut o = vec![];
         fr.rec(&mut o, 0x0116, &[]); // BrtBeginStyleSheet
         fr.rec(&mut o, 0x0267, &(self.fmts.len() as u32).to_le_bytes()); // BrtBeginFmts
+        let mut il = self.fmts_interleave.map(Rng::new);
         for (id, s) in &self.fmts {
             let mut p = id.to_le_bytes().to_vec();
             p.extend_from_slice(&wide_str(s));
+            let mut wrapped = false;
+            if let Some(rng) = &mut il {
+                match rng.below(4) {
+                    0 => {
+                        fr.rec(&mut o, 0x0025, &[0x01, 0x00, 0x02, 0x00, 0x00, 0x00]); // BrtACBegin
+                        wrapped = true;
+                    }
+                    1 => {
+                        let n = rng.below(9) as usize;
+                        let q = rng.bytes(n);
+                        fr.rec(&mut o, *rng.pick(&[0x0401u16, 0x0013, 0x3FFD]), &q);
+                    }
+                    2 => {
+                        fr.rec(&mut o, 0x0023, &[0xFF, 0xFF, 0xFF, 0xFF]); // BrtFRTBegin
+                        fr.rec(&mut o, 0x0024, &[]); // BrtFRTEnd
+                    }
+                    _ => {}
+                }
+            }
             fr.rec(&mut o, 0x002C, &p); // BrtFmt
+            if wrapped {
+                fr.rec(&mut o, 0x0026, &[]); // BrtACEnd
+            }
         }
         fr.rec(&mut o, 0x0268, &[]); // BrtEndFmts
         for (id, p) in &self.styles_pre {
